@@ -696,6 +696,55 @@ theorem fill_all_buffered (s : St) (h : InvL s) (l : List (Bytes × Nat × Optio
     · exact ⟨i, data, _, _, ho'⟩
     · exact ih' o hmem
 
+/-! ## An action list over a buffered packet amounts to arrivals followed by the release
+
+The harness puts an arbitrary action list (outputs, rewrites, output:CONTROLLER, output:TABLE into a miss — in any order) that a
+packet_out / flow_mod runs over buffered packet `id` to the model as: one `.arrive` per buffering output, carrying the frame as it
+is AT that output, then `.drop id` (`_process_actions_for_packet_from_buffer`: the actions run while the slot is still occupied, the
+slot is cleared in the `finally`).  A release whose k-th physical output raises is the same history with the arrivals cut at the
+failing output.  `list_release` says what every such history does to the controller's view, whatever the arrivals are. -/
+
+theorem run_append (s : St) (a b : List Op) :
+    run s (a ++ b) = ((run (run s a).1 b).1, (run s a).2 ++ (run (run s a).1 b).2) := by
+  induction a generalizing s with
+  | nil => simp [run]
+  | cons op a ih =>
+    simp only [List.cons_append, run]
+    rw [ih]
+
+theorem arrivals_not_names (id : Nat) (l : List (Bytes × Nat × Option Nat)) : ∀ op ∈ arrivals l, ¬ Names id op := by
+  intro op hop
+  simp only [arrivals, List.mem_map] at hop
+  obtain ⟨x, _, rfl⟩ := hop
+  simp [Names]
+
+/-- **list_release**: an action list run over outstanding buffer `id` — any number of buffering outputs, then the release — answers
+with exactly the packet-ins the arrivals alone produce (the release adds none), leaves `id` no longer outstanding, and leaves every
+other id that was outstanding before tied to its frame. -/
+theorem list_release (s : St) (h : Inv s) (id : Nat) (f : Frame) (l : List (Bytes × Nat × Option Nat)) (he : (id, f) ∈ s.handed) :
+    (run s (arrivals l ++ [.drop id])).2 = (run s (arrivals l)).2 ++ [.nothing] ∧
+    id ∉ (run s (arrivals l ++ [.drop id])).1.handed.map (·.1) ∧
+    (∀ j g, j ≠ id → (j, g) ∈ s.handed → (j, g) ∈ (run s (arrivals l ++ [.drop id])).1.handed) := by
+  have hno := arrivals_not_names id l
+  obtain ⟨hm, -, -⟩ := held_frame_fixed s h id f (arrivals l) he hno
+  have hinv := reachable_inv s (arrivals l) h
+  rw [run_append]
+  refine ⟨by simp [run, step], ?_, ?_⟩
+  · have := ((use_once _ hinv id).1 f hm).2
+    simpa [run, step] using this
+  · intro j g hne hj
+    have hj' : (j, g) ∈ (run s (arrivals l)).1.handed :=
+      (held_frame_fixed s h j g (arrivals l) hj (arrivals_not_names j l)).1
+    have := step_keeps (run s (arrivals l)).1 (.drop id) j g hj' (by simp [Names]; exact fun e => hne e.symm)
+    simpa [run] using this
+
+/-! a buffered packet (id 1) run through [output:CONTROLLER(2) after a rewrite, a length-changing rewrite, output:TABLE into a miss]:
+two packet-ins showing the frame as it is at each output, then id 1 is gone and the two new ids stand for those frames -/
+example : (run (init 3 9) ([.arrive [1,2,3] 7 none] ++ (arrivals [([9,2,3], 7, some 2), ([9,2,3,4], 7, none)] ++ [.drop 1, .use 1, .use 3]))).2 =
+    [.packetIn (some 1) [1,2,3] 3 7, .packetIn (some 2) [9,2] 3 7, .packetIn (some 3) [9,2,3,4] 4 7, .nothing, .nothing, .emit [9,2,3,4] 7] := by decide
+example : ∃ f, (1, f) ∈ (run (init 3 9) [.arrive [1,2,3] 7 none]).1.handed ∧ Inv (run (init 3 9) [.arrive [1,2,3] 7 none]).1 :=
+  ⟨([1,2,3], 7), by decide, reachable_inv _ _ (init_inv 3 9)⟩
+
 /-! non-vacuity: a pool of 2 after three arrivals and a use — ids 1, 2, none; using 1 frees it and 1 is reused -/
 def demoOps : List Op :=
   [.arrive [1,2,3,4] 7 none, .arrive [5,6] 8 (some 1), .arrive [9] 9 none, .use 1, .use 1, .arrive [10,11,12] 3 none]
